@@ -205,6 +205,15 @@ theorem generated_structure_ok :
     SqlglotModel.Generated.C08.simplifyRepairShape = true ∧
     SqlglotModel.Generated.C08.rawClasses = ["identifier", "literal"] := by decide +kernel
 
+/-- `Expr.__init__` skips `_set_parent` for `is_primitive` classes (the model's `cls()` + `set` does not have that
+    shortcut). The shortcut is sound only while no primitive class has a child-valued argument: every argument of every
+    primitive class, re-extracted from the live classes on every run, is one of the known scalar payload args. A class
+    gaining `is_primitive = True` with another argument (e.g. a child expression) breaks this build. -/
+theorem primitive_classes_scalar_only :
+    SqlglotModel.Generated.C08.primitiveClasses.all (fun e => e.2.all (fun a =>
+      ["this", "quoted", "global_", "temporary", "is_string", "is_bytes", "is_integer"].contains a)) = true := by
+  decide +kernel
+
 /-! ### non-vacuity: a concrete admissible history (And(this=Column, expression=Literal); hash; edit the grandchild) -/
 
 def demoOps : List Op :=
